@@ -276,7 +276,10 @@ func main() {
 		n(28), n(18),
 		// byte slices, alone and as elements (a memo keyed by string(bytes) cannot tell nil from empty; an Equal that
 		// looks at the elements' nil-ness only calls different contents equal)
-		ty.Sl(b("byte")), ty.Sl(ty.Sl(b("byte"))), n(22)}
+		ty.Sl(b("byte")), ty.Sl(ty.Sl(b("byte"))), n(22),
+		// a map keyed by an imported struct with an unexported field: keys that agree on the exported fields are
+		// different keys, and the hash of the map must not depend on the order the map hands them out
+		ty.M(n(21), b("int"))}
 	if *thorough {
 		comparable = append(comparable, n(14), ty.Ar(2, b("string")), b("int8"), b("uint64"), b("complex128"), n(21))
 		noncomp = append(noncomp, n(11), n(12), n(13), ty.P(b("int")), ty.Sl(n(5)), ty.P(n(6)), ty.M(b("int"), ty.Sl(b("int"))), n(7))
@@ -305,6 +308,9 @@ func main() {
 	addPL(b("float64"), n(5))
 	addPL(n(2), b("bool"))
 	addPL(b("int"), b("int"))
+	// only strings: a key made by joining the parameters is not injective
+	addPL(b("string"), b("string"))
+	addPL(b("string"), b("string"), b("string"))
 	nCC, nMix, nNN, n3C, n3M := 6, 1, 4, 4, 8
 	if *thorough {
 		nCC, nMix, nNN, n3C, n3M = 30, 3, 20, 20, 40
@@ -649,6 +655,43 @@ func main() {
 			c1[i] = vg.Inst(&ty.Val{K: ty.VMap, Elems: []*ty.Val{k0, iv(-16320)}})
 			emit("memseq", s, "collide-submap", []tuple{c0, c1, c0, c1})
 			emit("memseq", s, "collide-submap", []tuple{c1, c0, c1})
+			break
+		}
+		// all parameters strings: tuples whose NUL-joined (and plainly concatenated) texts coincide are different arguments
+		allStr := np >= 2
+		for _, t := range s.params {
+			if u := env.Under(t); t.K != ty.Basic || u.B != "string" {
+				allStr = false
+			}
+		}
+		if allStr {
+			c0, c1, c2 := append(tuple(nil), t0...), append(tuple(nil), t0...), append(tuple(nil), t0...)
+			for i := range c0 {
+				c0[i], c1[i], c2[i] = sv(""), sv(""), sv("")
+			}
+			c0[0], c0[1] = sv("a\x00"), sv("b")
+			c1[0], c1[1] = sv("a"), sv("\x00b")
+			c2[0], c2[1] = sv("a\x00b"), sv("")
+			emit("memseq", s, "join-collide", []tuple{c0, c1, c2, c0, c1, c2})
+		}
+		// a map keyed by an imported struct with an unexported field (X3{a string; B int8}): four keys that agree on B
+		for i, t := range s.params {
+			u := env.Under(t)
+			if u.K != ty.Map || u.Key.K != ty.Named || u.Key.N != 21 {
+				continue
+			}
+			mk := func(order []int) tuple {
+				names := []string{"w", "x", "y", "z"}
+				var es []*ty.Val
+				for _, k := range order {
+					es = append(es, st(sv(names[k]), iv(1)), iv(int64(k+1)))
+				}
+				c := append(tuple(nil), t0...)
+				c[i] = vg.Inst(&ty.Val{K: ty.VMap, Elems: es})
+				return c
+			}
+			emit("memseq", s, "hidden-keys", []tuple{mk([]int{0, 1, 2, 3}), mk([]int{3, 2, 1, 0}), mk([]int{1, 3, 0, 2}), mk([]int{0, 1, 2, 3}),
+				mk([]int{2, 0, 3, 1}), mk([]int{3, 1, 2, 0}), mk([]int{0, 2, 1, 3}), mk([]int{1, 0, 3, 2})})
 			break
 		}
 		// two adjacent int parameters: (0,31) and (1,0) collide in the hash of the input struct
